@@ -555,6 +555,7 @@ func (c *caseRun) judge(t *rapid.T) caseStats {
 		}
 	}
 	// (6) causality
+	commitStamped := map[string]bool{"channel-link-receive": true} // kinds whose values carry the writer's clock as of its commit (measured on the unchanged tree: 0 of 469 such reads fell short)
 	m := &models{c: c}
 	n := len(c.runs)
 	m.committed = make([]map[int]int, n)
@@ -613,8 +614,18 @@ func (c *caseRun) judge(t *rapid.T) caseStats {
 				end := ops[len(ops)-1]
 				if end.firstExcess(stamp) >= 0 {
 					shapeReads++ // the writer learnt something after this write, in the same section
-					if end.firstExcess(lc) >= 0 {
+					via := pr.insts[o.Res].Kind()
+					vstat.Class("reads.writer-learnt-more-after-the-write.via." + via)
+					if k := end.firstExcess(lc); k >= 0 {
 						restrictedReads++
+						vstat.Class("reads.restricted.via." + via)
+						if commitStamped[via] {
+							// Go-channel hops: OutputChan publishes at Commit and stamps what it publishes with the clock of the
+							// committing attempt, so here the statement's "dominates the writer's" holds for the writer's whole
+							// attempt, and is asserted
+							c.failf(t, pr, i, "(6) the attempt read %q over a Go channel, published by the commit of attempt #%d of %s, whose clock at the end of its section was at least %s; the reader's logged clock %s does not dominate it (component %s: %d < %d)\nwriter:\n%s",
+								o.Tok, w.seq, wpr.key(), c.vcString(end), c.vcString(lc), c.runs[k].key(), lc[k], end[k], renderAttempt(wpr, w.seq-1))
+						}
 					}
 				}
 			}
